@@ -47,8 +47,10 @@ def configs(tier):
     full = list(TOKENS)
     small = ["tiny", "mid", "small", "one", "nan", "valueerror"]
     out = []
-    for je in (0, -16):
+    for je in (0, -16, 4):
         out.append(dict(solver="newton", je=je, te=-2, maxiters=3 if tier == "quick" else 4, maxls=1, alphabet=full))
+        if je == 4:
+            continue
         out.append(dict(solver="linesearch", je=je, te=-2, maxiters=2, maxls=2, alphabet=full if tier == "thorough" else small + ["huge", "zero"]))
     out.append(dict(solver="linesearch", je=0, te=-2, maxiters=4, maxls=2, alphabet=["one", "tiny", "zero"]))
     out.append(dict(solver="quasi", je=0, te=-2, maxiters=3 if tier == "quick" else 4, maxls=1, alphabet=full))
@@ -137,18 +139,22 @@ def terms_value(terms):
     return math.fsum(t[0] * 2.0 ** t[1] for t in terms)
 
 
-def replay_projection(b, tsign):
-    """Replay one spec behaviour into the real projection solver; returns observation dict."""
+def replay_projection(b, tsign, kind="euclid"):
+    """Replay one spec behaviour into the real projection solver; returns observation dict.
+    kind "gaussian": the Gaussian-split constrained system, whose h2 flow derivative is
+    (sin|t|, cos t) instead of (|t|, 1) -- same control flow, different multiplier scaling."""
     import mici.solvers as S
     from mici.errors import ConvergenceError
     from mici.states import ChainState
-    from mici.systems import DenseConstrainedEuclideanMetricSystem
+    from mici.systems import DenseConstrainedEuclideanMetricSystem, GaussianDenseConstrainedEuclideanMetricSystem
 
     c = b["cfg"]
     sc = ScriptedConstraint([tuple(t) for t in b["script"]], c["je"])
-    system = DenseConstrainedEuclideanMetricSystem(
+    cls = DenseConstrainedEuclideanMetricSystem if kind == "euclid" else GaussianDenseConstrainedEuclideanMetricSystem
+    kw = {} if kind == "euclid" else {"mhp_constr": lambda q: (lambda m: np.zeros_like(q))}
+    system = cls(
         lambda q: 0.0, sc.constr, metric=np.array([1.0]), grad_neg_log_dens=lambda q: np.zeros_like(q),
-        jacob_constr=sc.jacob)
+        jacob_constr=sc.jacob, **kw)
     state = ChainState(pos=np.array([1.0]), mom=np.array([0.25]), dir=1)
     state_prev = ChainState(pos=np.array([PREV_POS]), mom=np.array([0.0]), dir=1)
     prev_before = (state_prev.pos.copy(), state_prev.mom.copy())
@@ -176,6 +182,7 @@ def replay_projection(b, tsign):
     obs["last_residual"] = sc.residuals[-1] if sc.residuals else None
     obs["prev_untouched"] = bool(np.array_equal(state_prev.pos, prev_before[0]) and np.array_equal(state_prev.mom, prev_before[1]))
     obs["t"] = t
+    obs["cpos"], obs["cmom"] = (abs(t), 1.0) if kind == "euclid" else (math.sin(abs(t)), math.cos(t))
     return obs
 
 
@@ -245,10 +252,10 @@ def check_behaviour(b):
             drift.append(f"fpdirect script {script_s}: returned {obs['x']} vs spec {terms_value(b['dpos'])}")
         return viol, drift, runs
     full = {"newton": "newton", "quasi": "quasi_newton", "linesearch": "newton_with_line_search"}[sname]
-    for tsign in (1, -1):
-        obs = replay_projection(b, tsign)
+    for tsign, kind in ((1, "euclid"), (-1, "euclid"), (1, "gaussian"), (-1, "gaussian")):
+        obs = replay_projection(b, tsign, kind)
         runs += 1
-        where = f"solve_projection_onto_manifold_{full} (J=2^{c['je']}, t={obs['t']}, script {script_s})"
+        where = f"solve_projection_onto_manifold_{full} ({kind} system, J=2^{c['je']}, t={obs['t']}, script {script_s})"
         if obs["outcome"] == "foreign-exception":
             owner_sig = f"C12:solver:{full}:foreign-exception:{obs['exc'].split(':')[0]}"
             viol.append(("C12", owner_sig, f"{where} let {obs['exc']} escape"))
@@ -263,9 +270,10 @@ def check_behaviour(b):
                     viol.append((owner, f"{owner}:solver:{full}:unconverged-return",
                                  f"{where} returned although the last constraint residual was {lr}"))
             # Lagrange-multiplier form: pos moved by -|t| M^-1 J_prev^T mu, mom by -sign(t) mu, same mu
-            mu_pos = -obs["dpos"] / abs(obs["t"])
-            mu_mom = -obs["dmom"] * tsign
-            if not (math.isclose(mu_pos, mu_mom, rel_tol=1e-9, abs_tol=1e-300) or (math.isnan(mu_pos) and math.isnan(mu_mom))):
+            mu_pos = -obs["dpos"] / obs["cpos"]
+            mu_mom = -obs["dmom"] * tsign / obs["cmom"]
+            # (the position displacement is recovered from pos - 1.0: absolute rounding error ~1e-16)
+            if not (math.isclose(mu_pos, mu_mom, rel_tol=1e-6, abs_tol=1e-14) or (math.isnan(mu_pos) and math.isnan(mu_mom))):
                 viol.append(("C04", f"C04:solver:{full}:lagrange-form",
                              f"{where} returned a position moved with multiplier {mu_pos!r} but a momentum corrected with "
                              f"multiplier {mu_mom!r}: not of the form (q + dPhi_q J^T lam, p + dPhi_p J^T lam)"))
@@ -274,11 +282,12 @@ def check_behaviour(b):
             drift.append(f"{where}: implementation {obs['outcome']} after {obs['consumed']} evaluations, spec {b['outcome']} after {len(b['script'])}")
         elif obs["outcome"] == "return":
             want_dpos = terms_value(b["dpos"])
-            want_mu = terms_value(b["mu"])
-            if not (math.isclose(obs["dpos"], want_dpos, rel_tol=1e-9, abs_tol=1e-300) or (math.isnan(want_dpos) and math.isnan(obs["dpos"]))):
+            want_mu = terms_value(b["mu"]) * abs(obs["t"]) / obs["cpos"]
+            obs_mu = -obs["dmom"] * tsign / obs["cmom"]
+            if not (math.isclose(obs["dpos"], want_dpos, rel_tol=1e-6, abs_tol=1e-14) or (math.isnan(want_dpos) and math.isnan(obs["dpos"]))):
                 drift.append(f"{where}: position displacement {obs['dpos']!r} vs spec {want_dpos!r}")
-            if not (math.isclose(-obs["dmom"] * tsign, want_mu, rel_tol=1e-9, abs_tol=1e-300) or (math.isnan(want_mu) and math.isnan(obs["dmom"]))):
-                drift.append(f"{where}: multiplier {-obs['dmom'] * tsign!r} vs spec {want_mu!r}")
+            if not (math.isclose(obs_mu, want_mu, rel_tol=1e-6, abs_tol=1e-14) or (math.isnan(want_mu) and math.isnan(obs["dmom"]))):
+                drift.append(f"{where}: multiplier {obs_mu!r} vs spec {want_mu!r}")
     return viol, drift, runs
 
 
